@@ -158,4 +158,25 @@ theorem OrgRelT.orgWide {D : Nat} {P : Nat → Prop} {s s' : Stmt} (h : OrgRelT 
   · exact .inl ha
   · exact .inr ⟨n, .extended, ha⟩
 
+/-! ### the ORG check (model batch 5): it looks at rows, labels and sizes only -/
+
+/-- `orgOK` ("an ORG comes before the first label and the first byte") does not change when operands, original texts and
+addresses change -/
+theorem orgOK_inert : ∀ (ss ss' : List Stmt) (laid : Bool), PW Inert ss ss' → orgOK ss' laid = orgOK ss laid := by
+  intro ss
+  induction ss with
+  | nil => intro ss' laid h; rw [h.nil_left]
+  | cons s rest ih =>
+    intro ss' laid h
+    obtain ⟨s', rest', rfl, hi, hr⟩ := h.cons_left
+    obtain ⟨o, tx, a, rfl⟩ := hi.exists
+    rw [orgOK, orgOK]
+    simp only [setInert_row, setInert_size, setInert_label]
+    rw [ih rest' _ hr]
+
+/-- the ORG check gives the same answer on the two programs that differ in the operands of their ORG statements -/
+theorem orgOK_orgRelT {D : Nat} {P : Nat → Prop} {ss ss' : List Stmt} (h : PW (OrgRelT D P) ss ss') (laid : Bool) :
+    orgOK ss' laid = orgOK ss laid :=
+  orgOK_inert ss ss' laid (h.mono (fun _ _ => OrgRelT.inert))
+
 end CoCo.Asm
